@@ -132,14 +132,14 @@ func vClientLines(now int64, full bool) []VLine {
 		"PASS :captcha="+tok(fmt.Sprintf("okay:login:%d:", now)), "PASS :captcha="+tok(fmt.Sprintf("login:%d:", now)), "PASS :captcha="+vCaptcha(vSecret, fmt.Sprintf("okay:login:%d:", now), "authXXXX", true),
 		"PASS :captcha="+tok(fmt.Sprintf("okay:login:%d:", now-int64(6*time.Minute))), "PASS :captcha=x.y", "PASS :captcha=!.!.!")
 	add("oper", "OPER root operpw", "OPER root wrong", "OPER nobody operpw", "OPER root", "OPER root :", "OPER", "OPER admin otherpw", "OPER admin adminpw", "OPER root adminpw", "OPER admin operpw")
-	add("join", "JOIN #c", "JOIN #C", "JOIN #d", "JOIN #new", "JOIN #c,#d", "JOIN #c key", "JOIN #c KEY", "JOIN #c wrong", "JOIN #c,#d key,key2", "JOIN #new,#c", "JOIN #new,#d,#c", "JOIN #d,#new", "JOIN #new,#new2", "JOIN c", "JOIN #", "JOIN", "JOIN :", "JOIN #c,", "JOIN ,", "JOIN #c,#c",
+	add("join", "JOIN #c", "JOIN #C", "JOIN #d", "JOIN #new", "JOIN #c,#d", "JOIN #c key", "JOIN #c KEY", "JOIN #c wrong", "JOIN #c,#d key,key2", "JOIN #c,#d key", "JOIN #c,#d,#new key,key2", "JOIN #c,#d :", "JOIN #new,#new2 k", "JOIN #c key,key2,key3", "JOIN #c,#d ,key2", "JOIN #new,#c", "JOIN #new,#d,#c", "JOIN #d,#new", "JOIN #new,#new2", "JOIN c", "JOIN #", "JOIN", "JOIN :", "JOIN #c,", "JOIN ,", "JOIN #c,#c",
 		"JOIN #"+strings.Repeat("x", 32), "JOIN #"+strings.Repeat("x", 33), "JOIN #a\x07b", "JOIN 0",
 		"JOIN #c "+tok(okJoin), "JOIN #c "+vCaptcha(vSecret, okJoin, "authXXXX", true), "JOIN #c "+tok(fmt.Sprintf("join:%d:#c", now)),
 		"JOIN #c "+tok(fmt.Sprintf("login:%d:", now)), "JOIN #c "+tok(fmt.Sprintf("okay:join:%d:#c", now-int64(6*time.Minute))),
 		"JOIN #c "+vCaptcha([]byte("other"), okJoin, "authXXXX", false), "JOIN #c "+tok(fmt.Sprintf("okay:join:%d:#d", now)),
 		"JOIN #c "+tok(fmt.Sprintf("okay:join:%d", now)), "JOIN #c "+tok("okay:join:nan:#c"), "JOIN #c a.b", "JOIN #c !.!.!", "JOIN #c "+tok(fmt.Sprintf("okay:login:%d:", now)))
 	add("part", "PART #c", "PART #C", "PART #d", "PART #c,#d", "PART #none", "PART #c :bye", "PART", "PART :", "PART ,")
-	add("kick", "KICK #c a", "KICK #c b", "KICK #c B", "KICK #c c", "KICK #c nobody", "KICK #d a", "KICK #d b", "KICK #c a :reason", "KICK #c b :", "KICK #c ChanServ", "KICK #none a", "KICK #c", "KICK", "KICK #c :", "KICK : :", "KICK #C a", "KICK #C b", "KICK #C c :x", "KICK #D b")
+	add("kick", "KICK #c,#d a", "KICK #c a,b", "KICK #c,#d a,b", "KICK #c a", "KICK #c b", "KICK #c B", "KICK #c c", "KICK #c nobody", "KICK #d a", "KICK #d b", "KICK #c a :reason", "KICK #c b :", "KICK #c ChanServ", "KICK #none a", "KICK #c", "KICK", "KICK #c :", "KICK : :", "KICK #C a", "KICK #C b", "KICK #C c :x", "KICK #D b")
 	add("topic", "TOPIC #c", "TOPIC #c :", "TOPIC #c :new topic", "TOPIC #c new", "TOPIC #d :x", "TOPIC #d :", "TOPIC #C :t2", "TOPIC #none :x", "TOPIC #none", "TOPIC", "TOPIC :", "TOPIC #c a b", "TOPIC #c a :")
 	add("mode", "MODE #c", "MODE #c +i", "MODE #c -i", "MODE #c +k key", "MODE #c +k KEY", "MODE #c +k", "MODE #c -k", "MODE #c -k key", "MODE #c +b", "MODE #c b", "MODE #c +b a!*@*", "MODE #c +b b!*@*", "MODE #c -b b!*@*", "MODE #c -b a!*@*", "MODE #c +b \u023a\u023a\u023a\u023a@robust/0x5", "MODE #c +b \u023a\u023a\u023a\u023a\u023a\u023a\u023a\u023a@ROBUST/0X5", "MODE #c +b \u0130\u0130\u0130!\u1e9e@robust/0x8", "MODE #c +ikob sesame b", "MODE #c +bo b", "MODE #c +ob a", "MODE #c +bi", "MODE #c +bk sesame", "MODE #c -bo a", "MODE #c -b *!*@robust/0x5", "MODE #c -b *!*@robust/0x8", "MODE #c +b *!*@robust/0x5", "MODE #c +b *!*@robust/0x8", "MODE #c +b *!*@10.0.0.*",
 		"MODE #c +b *!*@robust/0x2", "MODE #c +b *!*@robust/0x5", "MODE #c +b *!*@robust/0xzz", "MODE #c +b [", "MODE #c +b (", "MODE #c +b \\", "MODE #c +o b", "MODE #c -o a", "MODE #c -o b", "MODE #c +o a", "MODE #c +o nobody", "MODE #c +o", "MODE #c +x", "MODE #c -x", "MODE #c +t", "MODE #c -t",
@@ -244,6 +244,11 @@ func vServiceLines(pseudo []string) []VLine {
 		":"+srv+" NICK enforcer 1 1425542735 enforcer "+srv+" "+srv+" 0 :Services Enforcer",
 		"NICK a 1 1 services robustirc.net "+srv+" 0 :collides with user",
 		"NICK ChanServ",
+		// pseudo-clients whose nickname / user name would not pass for an ordinary client: they become the prefix
+		// of every line relayed from the pseudo-client
+		"NICK "+strings.Repeat("N", 500)+" 1 1422134861 services robustirc.net "+srv+" 0 :overlong nickname",
+		"NICK LongUser 1 1422134861 "+strings.Repeat("u", 500)+" robustirc.net "+srv+" 0 :overlong user name",
+		"NICK Bang!x@y 1 1422134861 services robustirc.net "+srv+" 0 :nickname with prefix separators",
 		"PING :"+srv, "PING x",
 		"SVSNICK a guest1 :1", "SVSNICK b guest2 :1", "SVSNICK a {guest} :1", "SVSNICK nobody guest3 :1", "SVSNICK a 1bad :1", "SVSNICK c guest4 :1",
 		":"+srv+" SVSJOIN a #c", ":"+srv+" SVSJOIN a #d", ":"+srv+" SVSJOIN b #c", ":"+srv+" SVSJOIN a #new", ":"+srv+" SVSJOIN nobody #c", ":"+srv+" SVSJOIN a c", ":"+srv+" SVSJOIN c #c",
